@@ -613,6 +613,13 @@ func (g *TxGen) finish(t *rapid.T, a *Actor, acct *staking.Account, method trans
 			feeAmt = bal.Uint64() + 1
 			d.Mutated, d.ExpectAuthOK = "fee>balance", false
 		}
+	case 7:
+		// the fee is affordable but what remains is below the minimum transact balance: rejected at authentication
+		if bal := acct.General.Balance.ToBigInt(); g.W.Spec.MinTransact > 0 && bal.IsUint64() && bal.Uint64() > 0 {
+			k := rapid.Uint64Range(0, minU64(g.W.Spec.MinTransact-1, bal.Uint64()-1)).Draw(t, "belowMin")
+			feeAmt = bal.Uint64() - k
+			d.Mutated, d.ExpectAuthOK = "fee-leaves-less-than-minimum", false
+		}
 	case 4, 5:
 		if gas > 0 {
 			gas = rapid.Uint64Range(0, gas-1).Draw(t, "gasShort")
